@@ -424,7 +424,7 @@ fn coverage_for(engine: &dyn Engine, cj: &Value, planned: u64) -> Value {
     if engine.name() == "histsim" {
         cov["exhaustive_subspace"] = json!({
             "histories": counters["exhaustive_subspace.histories"],
-            "what": "for each of the 17 zoo grammars (8 over Rich errors, 9 over EmptyErr / Cheap / Simple) x 3 handle disciplines (same value / fresh clone per step / fresh wrapper per step with drops): ALL histories of length <= 4 (quick) / <= 6 (thorough) over a pool of 4 inputs — complete for that sub-space only",
+            "what": "for each of the 21 zoo grammars (9 over Rich errors, 12 over EmptyErr / Cheap / Simple) x 3 handle disciplines (same value / fresh clone per step / fresh wrapper per step with drops): ALL histories of length <= 4 (quick) / <= 6 (thorough) over a pool of 4 inputs — complete for that sub-space only",
         });
     }
     cov
